@@ -267,7 +267,7 @@ def main():
     rep.note("crash schedules: %d with atomic writes, %d with a torn file write" % (n_atomic, n_all - n_atomic))
     # quick: every atomic schedule + every 4th torn one (rotated by the seed); thorough: all
     conds = []
-    step = 1400
+    step = 3000
     for lo in range(0, n_all, step):
         hi = min(n_all, lo + step)
         conds.append(xh.Cond(H, "converge", timeout=T, env=dict(env0, XH_N="%d-%d" % (lo, hi)),
